@@ -234,8 +234,24 @@ CLAIMED = {
              "Ingredients proved for every hints list / record list: C07_hints_zone_lookup (a zone built from hints answers a "
              "lookup with exactly the matching hints, via C02's flat specification), C07_simple_cache_get_after_insert_all, "
              "C07_sort_names_ord_permutation; the hypotheses are met by the worked universe (C07_example_depth0/1). "
-             "STREAM-ONLY (not proved): that the hops chain up at depth > 1, through aliases, through nameservers without glue "
-             "and in the v6 modes, i.e. that the result EQUALS auth_answer on every consistent "
+             "ANY DEPTH PROVED END TO END for glue-complete alias-free chains (C07_correct_chain; Resolver/RecursiveChain.v): for "
+             "every universe and every chain of its zones zroot > z1 > ... > zk, k arbitrary, in which each zone is delegated from "
+             "the one before on the way to the question name (the cut's NS records, an A record with TTL > 0 for every nameserver "
+             "host in the parent's glue or data, every such address a server whose closest zone for the name is the child, each "
+             "apex strictly deeper) and zk owns the name plainly (no alias, type other than CNAME/ANY), under the same other "
+             "hypotheses as depth 1 and every fuel >= k+2, the result is EXACTLY auth_answer and the log is exactly k+1 UDP "
+             "exchanges about the question, the i-th with a server whose closest zone for the name is the i-th zone of the chain, "
+             "root server first, depths strictly increasing. Induction on the chain over the candidate loop's state (match count, "
+             "candidates that all resolve in the fast pass from hints or cached glue, the cache after the insert_all of every "
+             "referral so far, stack [q]); the cache is abstract with three laws over histories of insert_all (empty start; an A "
+             "record read was inserted; an A record with TTL > 0 given to the last insert_all is read back), proved for SimpleCache "
+             "and for the real cache model Cache/CacheModel.v at any fixed instant (C07_chain_cache_laws), for which the same "
+             "theorem is stated (C07_correct_chain_real_cache). C07_example_depth3: the hypotheses are met by a consistent universe "
+             ". -> com. -> example.com. -> sub.example.com. built in the file (an existing record and a NODATA question: four "
+             "exchanges at fuel 5; the same run evaluated by vm_compute asks 10.0.0.1..4 in order). "
+             "STREAM-ONLY (not proved): resolution through nameservers without glue (nested resolution of the host), through "
+             "aliases, in the v6 modes, with a cache warm from earlier questions, and with servers authoritative for several "
+             "zones of a chain, i.e. that the result EQUALS auth_answer on every consistent "
              "universe (C07_correct_partial is stated in a comment of Properties/C07.v with what is missing). That clause is covered "
              "by the differential stream and the oracle: generated universes (depth 1..5, 1..3 nameservers per zone, "
              "in/out-of-bailiwick and sibling nameserver names, glue present/absent, v4/v6/dual addresses, cross-zone CNAMEs, "
@@ -243,12 +259,16 @@ CLAIMED = {
              "transport (hook H3) from a reply table computed by the extracted Universe.serve; the implementation's result must "
              "equal the extracted auth_answer and the model must agree with the implementation on every exchange, result and the "
              "final cache.",
-        note="C07_correct_partial is proved for depth 1 only (hypotheses of C07_correct_depth1, all but [serve_fits] decidable on "
-             "the universe and the question: hints well formed and leading to root servers, hints not answering the question "
-             "themselves, glue-complete delegation whose addresses are servers of the delegated zone, positive glue TTL, the "
-             "question name owning no glue -- finding F11; consistentb is not needed beyond these). Missing for the whole "
-             "statement: (1) the induction over depth: the cache then holds the glue of several referrals (get after several "
-             "insert_all) and nameserver hosts without glue are resolved recursively; (2) a well-formedness predicate on universes "
+        note="C07_correct_partial is proved for glue-complete alias-free delegation chains of any depth (C07_correct_chain; "
+             "hypotheses chain_from / chain_link of Resolver/RecursiveChain.v with hints_for and plain_question of depth 1, all but "
+             "[serve_fits] decidable on the universe and the question: hints well formed and leading to root servers, hints not "
+             "answering the question themselves, at every link a glue-complete delegation whose addresses -- in the parent and in "
+             "the zones above it, whose glue the cache holds by then -- are servers whose closest zone for the name is the "
+             "delegated zone, positive glue TTL, strictly deeper apex, the question name owning no glue -- finding F11; "
+             "consistentb is not needed beyond these). Missing for the whole statement: (1) nameserver hosts without glue, "
+             "resolved by a nested recursive resolution (the slow candidate pass, a deeper question stack), and a cache warm "
+             "from earlier questions (candidate_nameservers then starts below the root); servers authoritative for several "
+             "zones of one chain (a hop is skipped); the v6 modes; (2) a well-formedness predicate on universes "
              "implying [serve_fits] (replies well formed and at "
              "most 512 octets), under which C07_universe_oracle_delivers discharges the hop theorems' hypothesis [delivers]; "
              "(3) aliases (serve's multi-link answers, the CNAME continuation); (4) the glue "
@@ -315,8 +335,9 @@ CLAIMED = {
     "C14": dict(
         text="Theorems about the Gallina model of hosts/{deserialise,serialise,types}.rs and of std's IP address text codec: "
              "reading the rendering of a hosts-file syntax tree (arbitrary ASCII white space, aliases, comments after any field "
-             "also glued, interface-suffixed addresses, CRLF) yields its last-writer-wins meaning (hosts_parse_denotes); the first "
-             "mapping line with a malformed address or name is an error (hosts_errors_*); the reader never panics on any text "
+             "also glued, interface-suffixed addresses, CRLF) yields its last-writer-wins meaning (hosts_parse_denotes); a line that maps "
+             "no names is ignored whatever its address field is (address_only_ignored; /repo 25db594); the first line that maps at "
+             "least one name and has a malformed address or name is an error, the address error first (hosts_errors_*); the reader never panics on any text "
              "(parse_hosts_total); serialise-then-deserialise gives the same mappings for text-safe names (hosts_roundtrip); "
              "Zone::from(hosts) holds exactly one A/AAAA record per mapping with TTL 5, root apex, no SOA, no wildcards, and "
              "TryFrom<Zone>/from_zone_lossy give the hosts data back (hosts_zone_exact/back); Display-then-FromStr is the identity "
@@ -325,7 +346,9 @@ CLAIMED = {
              "serialise, round trip, zone conversion and lookups, merge) and by runs of the real htoh/htoz/ztoh binaries.",
         note="std's parser/printer are modelled by hand from the toolchain's source (Ip/IpModel.v) and validated against the real "
              "std by the stream; Display-then-FromStr is proved the identity for IPv4 and IPv6. A name whose leftmost label is '*' "
-             "does not survive htoz | ztoh (zone text reads it as a wildcard): reported, counted in the evidence.",
+             "does not survive htoz | ztoh (zone text reads it as a wildcard): known finding star-label-lost-through-zone-text, counted in "
+             "the evidence. Fixed finding (a recurrence fails the check): address-only-malformed-line-rejected (25db594); its witness "
+             "'zzz \\n1.2.3.4 foo' is the first corpus case and must read as one mapping.",
         design="5/C14", technique="Coq proof over executable model + model/impl correspondence (extraction) + real binaries"),
     "C11": dict(
         text="Theorems about the Gallina model of zones/deserialise.rs (tokeniser, parse_rr, Zone::deserialise), for all inputs: "
@@ -453,14 +476,18 @@ CLAIMED = {
              "framing <= 512 with TC exactly when cut and nothing else touched; TCP length prefix exact, TC and cut above 65535; every "
              "serialised message has >= 12 octets so the panic!() sites of util/net.rs are unreachable; short TCP reads give FORMERR "
              "with the id or silence. The answer-section clause is proved outside the known class (referral from an authoritative "
-             "zone, F12) with the witness that the class is inhabited; a second witness shows a reply whose serialisation fails and is "
-             "dropped. Pure part proved; model tied to the code by (a) a differential stream through the Rust harness for the framing "
+             "zone, F12) with the witness that the class is inhabited. The same reply-or-silence statement holds at the level of "
+             "datagrams / TCP connections with no premise about to_octets (udp_served_or_silence, tcp_served): a reply that cannot be "
+             "serialised is replaced by its SERVFAIL stand-in (same id/QR/opcode/RD/RA/questions, no records; /repo 35946be), which is "
+             "proved to serialise for every reply handle_raw_message builds (fallback_encodes); a witness shows the configuration of the "
+             "fixed finding unserialisable-reply-silence answered with SERVFAIL. Pure part proved; model tied to the code by (a) a differential stream through the Rust harness for the framing "
              "functions and make_response, (b) the real release binary driven over loopback UDP/TCP in authoritative-only and "
              "recursive mode, every reply compared with the extracted model's.",
         note="NOT proved, only observed on the real binary by every run: 'does not crash and keeps serving' (liveness probe after every "
-             "batch, process still running at the end), tokio scheduling, socket errors. Known findings (reported, not failing): "
-             "referral-in-answer-with-aa, unserialisable-reply-silence. The reply theorems are about handle_raw_message; replies reach "
-             "the wire only if to_octets succeeds (premise encode = Ok in the framing theorems). The answer-chain theorem takes the "
+             "batch, process still running at the end), tokio scheduling, socket errors. Known finding (reported, not failing): "
+             "referral-in-answer-with-aa. Fixed finding (a recurrence fails the check): unserialisable-reply-silence (35946be); its UDP "
+             "and TCP witness probes run first in every configuration and must get exactly one SERVFAIL reply with their id. The "
+             "framing theorems describe the octets of whatever message was serialised. The answer-chain theorem takes the "
              "chain property of the local resolver (C10) and 'the resolver returns' as premises. Recursive mode is modelled and "
              "exercised only with an unreachable upstream; forwarding mode not at all.",
         design="5/C09, 6/F12, 7/D8", technique="Coq proof over executable model + model/impl correspondence (extraction) against the real server binary"),
